@@ -443,9 +443,15 @@ def trace_case(cid, t):
             if diff_rows(it.get("diff")):
                 items.append("IOther %s" % clist(diff_rows(it.get("diff"))))
         elif k == "msg":
-            if it.get("more"):
-                raise OutOfModel("multi-message tx")
             ok = bool(res.get("ok"))
+            if it.get("more"):
+                # a multi-message transaction that failed as a whole is a no-op of the model (C10: no trace); if the
+                # implementation left a diff behind, the model is forced to follow it and the monitors report it
+                if ok:
+                    raise OutOfModel("successful multi-message tx")
+                if it.get("diff") and diff_rows(it.get("diff")):
+                    items.append("IOther %s" % clist(diff_rows(it.get("diff"))))
+                continue
             if not it["type_url"].startswith("/regen.data."):
                 items.append("IOther %s" % clist(diff_rows(it.get("diff"))))
                 continue
